@@ -220,11 +220,13 @@ BACKTRACKING:
 				break
 			}
 
-			next := nextPathSeparator(path, i)
-			nextParams := params
-			nextParams = append(nextParams, Param{Value: path[i:next]})
-			if nd, nextNextParams, found := da.lookup(path[next:], nextParams, nextIdx); found {
-				return nd, nextNextParams, true
+			// a parameter is a non-empty text: "/users:id/x" is not instantiated by "/users/x"
+			if next := nextPathSeparator(path, i); next > i {
+				nextParams := params
+				nextParams = append(nextParams, Param{Value: path[i:next]})
+				if nd, nextNextParams, found := da.lookup(path[next:], nextParams, nextIdx); found {
+					return nd, nextNextParams, true
+				}
 			}
 		}
 
